@@ -3,6 +3,8 @@ package checks
 import (
 	"context"
 	"fmt"
+	"io"
+	"net/http"
 	"strings"
 	"time"
 
@@ -79,6 +81,21 @@ func c01Seqs(run *ev.Run) [][]string {
 	if !run.Quick() {
 		out = append(out, []string{"1048576", "Z", "5"}, []string{"5242880", "S", "Z"},
 			[]string{"8388607", "Z", "8388608"}, []string{"8388609", "S", "Z", "8388600"})
+		// long streams and random walks over the size ladder
+		long := make([]string, 120)
+		for i := range long {
+			long[i] = []string{"S", "Z", "T", "3", "513"}[i%5]
+		}
+		out = append(out, long)
+		ladder := []string{"Z", "S", "T", "1", "2", "127", "128", "511", "512", "513", "1023", "1024", "1025", "4095", "4096", "65535", "65536", "200000"}
+		for k := 0; k < 60; k++ {
+			n := 1 + r.Intn(12)
+			s := make([]string, n)
+			for i := range s {
+				s[i] = ladder[r.Intn(len(ladder))]
+			}
+			out = append(out, s)
+		}
 	}
 	return out
 }
@@ -216,6 +233,9 @@ func c01(run *ev.Run) int {
 	for _, s := range servers {
 		serverPanicCheck(run, s, "c01")
 	}
+	if !run.Replaying() || strings.Contains(run.ReplayKey(), "late-eof") {
+		c01LateRequestEOF(run)
+	}
 	g1, p1, r1, dp := connect.VerifPoolStats()
 	run.Count("pool.gets", int64(g1-g0))
 	run.Count("pool.puts", int64(p1-p0))
@@ -308,8 +328,93 @@ func c01Call(run *ev.Run, srv *svc.Server, cs *svc.ClientSet, kind svc.Kind, key
 			break
 		}
 	}
+	if cl.CloseErr != nil {
+		run.Violation(key+"/close-error", "closing the response of a fault-free call failed: "+errStr(cl.CloseErr), detail(""))
+	}
 	if len(cl.SendErrs) > 0 {
 		run.Violation(key+"/send-error", "Send failed on a fault-free call: "+errStr(cl.SendErrs[0]), detail(""))
 	}
 	run.Sample(map[string]any{"config": cfg, "sent": gen.DescribeSeq(sends), "replied": gen.DescribeSeq(replies)})
+}
+
+// slowReqBody delays every read of the request body after the first: the
+// transport learns about the end of the request late.
+type slowReqBody struct {
+	io.ReadCloser
+	n     int
+	delay time.Duration
+}
+
+func (b *slowReqBody) Read(p []byte) (int, error) {
+	b.n++
+	if b.n > 1 {
+		time.Sleep(b.delay)
+	}
+	return b.ReadCloser.Read(p)
+}
+
+type slowReqTransport struct {
+	next  http.RoundTripper
+	delay time.Duration
+}
+
+func (t slowReqTransport) RoundTrip(r *http.Request) (*http.Response, error) {
+	if r.Body != nil {
+		r.Body = &slowReqBody{ReadCloser: r.Body, delay: t.delay}
+	}
+	return t.next.RoundTrip(r)
+}
+
+// c01LateRequestEOF is a schedule injection at the HTTP boundary: the client's
+// transport reads the end of the request body late, and the server ends the
+// HTTP/2 stream a while after the handler wrote its last byte. Nothing is
+// faulty, so every call must still succeed completely.
+func c01LateRequestEOF(run *ev.Run) {
+	reg := svc.NewRegistry()
+	hs := svc.Handlers(reg)
+	mux := svc.Mux(hs)
+	front := http.HandlerFunc(func(w http.ResponseWriter, req *http.Request) {
+		mux.ServeHTTP(w, req)
+		time.Sleep(120 * time.Millisecond) // END_STREAM comes after the in-body terminator
+	})
+	srv := svc.NewServerWith(reg, hs, front)
+	defer srv.Close()
+	for _, h2 := range []bool{true, false} {
+		for _, p := range svc.Protocols {
+			for _, kind := range svc.Kinds {
+				if kind == svc.Bidi && !h2 {
+					continue
+				}
+				for _, delay := range []time.Duration{10 * time.Millisecond, 40 * time.Millisecond} {
+					key := fmt.Sprintf("c01/late-eof/h2=%v/%s/%s/delay=%v", h2, p, kind, delay)
+					if !run.Want(key) {
+						continue
+					}
+					hc, base, _ := srv.HTTPClient(h2)
+					slow := &http.Client{Transport: slowReqTransport{next: hc.Transport, delay: delay}}
+					cs := svc.NewClientSet(slow, base, svc.ProtoOpts(p, "proto")...)
+					cs.Tap = srv.Tap2
+					if !h2 {
+						cs.Tap = srv.Tap1
+					}
+					in := []*gen.Msg{{Id: 1, Note: "a"}, {Id: 2, Note: "b"}}
+					out := []*gen.Msg{{Id: 3, Note: "c"}, {Id: 4, Note: "d"}}
+					prog := &svc.Program{Steps: []svc.Step{{Op: "recvall"}}}
+					sends, replies := in, out
+					if kind == svc.Unary || kind == svc.ServerStream {
+						sends = in[:1]
+					}
+					if kind == svc.Unary || kind == svc.ClientStream {
+						replies = out[:1]
+					}
+					for _, m := range replies {
+						prog.Steps = append(prog.Steps, svc.Step{Op: "send", Msg: m})
+					}
+					cfg := fmt.Sprintf("late-request-eof/h2=%v/%s/%s", h2, p, kind)
+					run.Count("schedule.late_request_eof.calls", 1)
+					c01Call(run, srv, cs, kind, key, cfg, []string{"late-eof", delay.String()}, sends, replies, prog)
+				}
+			}
+		}
+	}
 }
